@@ -1,4 +1,5 @@
 import RedisGoModel.Props.C08ReadyDisk
+import RedisGoModel.Generated.ReadyArm
 /-! # C08 — persist before externalise, as a theorem about the loop model `Cluster/ReadyLoop.lean`
 
 STATEMENTS (proofs below).
@@ -11,6 +12,11 @@ namespace C08Ready
 theorem armOrder_eq : armOrder =
     ["saveSnap", "wal.Save", "ApplySnapshot", "wal.Sync", "publishSnapshot", "raftStorage.Append", "transport.Send", "publishEntries",
      "maybeTriggerSnapshot", "Node.Advance"] := by decide
+
+/-- **the tie**: `Generated.readyArm` is rewritten on every check run from the calls go/ast finds in the Ready arm of `serveChannels`
+    (`harness/facts.go`); this proof is re-checked then, so the theorems below are about the arm of the source: a call that is moved,
+    dropped (e.g. the `wal.Sync()` of e044e73) or added breaks it -/
+theorem arm_is_source_arm : armOrder = Generated.readyArm := by decide
 
 /-! ## `safeB` decides `Safe` -/
 
